@@ -816,5 +816,6 @@ func c02(args []string) int {
 	c02server(run)
 	c02concurrent(run)
 	c02window(run)
+	c02reentrant(run)
 	return run.Finish()
 }
